@@ -22,7 +22,7 @@ enum ArgKind : uint8_t {
     AK_SCHAR = 0, AK_UCHAR, AK_SHORT, AK_USHORT, AK_INT, AK_UINT, AK_LONG, AK_ULONG, AK_LLONG, AK_ULLONG,
     AK_BOOL, AK_CHAR, AK_WCHAR, AK_CHAR16, AK_CHAR32, AK_CHAR8, AK_FLOAT, AK_DOUBLE, AK_COMPLEX,
     AK_CSTR, AK_WCSTR, AK_C16STR, AK_C32STR, AK_C8STR, AK_STSTRING, AK_STDSTRING, AK_WSTRING, AK_U16STRING, AK_U32STRING, AK_U8STRING,
-    AK_SV, AK_WSV, AK_U16SV, AK_U32SV, AK_U8SV, AK_NULLCSTR, AK_RAWBYTES, AK__COUNT
+    AK_SV, AK_WSV, AK_U16SV, AK_U32SV, AK_U8SV, AK_NULLCSTR, AK_RAWBYTES, AK_NESTED, AK__COUNT
 };
 const char *arg_kind_name(int k);
 
